@@ -116,6 +116,7 @@ def cases(tier, rng):
         ncuts = rng.randint(1, 12)
         cuts = sorted(set(rng.randrange(1, len(s)) for _ in range(ncuts)))
         out.append(chunk_case(f"long#{i}", s, cuts, ["long-random"]))
+    out += handover_cases(tier)
     return out
 
 
@@ -134,8 +135,80 @@ def items_of(lines):
     return items, term, left
 
 
+HAND_PEER = {"PULL": "PUSH", "SUB": "PUB", "DEALER": "ROUTER", "ROUTER": "DEALER", "REP": "REQ", "XPUB": "SUB", "PUB": "SUB",
+             "REQ": "REP"}
+
+
+def handover_cases(tier):
+    """SOCKET level — the hand-over of the framed reader from the handshake to the socket: the peer's first message (or any
+    prefix of it, cut at EVERY byte) arrives in the same segment as the end of its READY; the rest follows later.  Every
+    socket type that reads: the message is delivered whole as the first message (PUB: the subscription takes effect)."""
+    from vlib import worldgen as wg
+
+    out = []
+    n = 0
+    for t, pt in HAND_PEER.items():
+        first = {"REP": [b"", b"hello", b"w" * 5], "REQ": [b"", b"hello", b"w" * 5], "XPUB": [b"\x01topic"], "PUB": [b"\x01topic"]}.get(
+            t, [b"hello", b"", b"w" * 5])
+        if tier != "quick" and t in ("PULL", "ROUTER"):
+            first = first + [b"L" * 300]
+        data = zmtp.message(first)
+        for k in range(0, len(data) + 1):
+            sc = wg.Script()
+            sc.sock(1, t)
+            f = sc.fut()
+            sc.add(f"attach {f} 1 1", f"reveal 1 {wg.hx(wg.G + zmtp.ready(pt, b'p1') + data[:k])}", f"poll {f}")
+            if t == "REQ":
+                sc.send_once(1, [b"q"])
+            if k < len(data):
+                # (a recv polled BEFORE the rest arrives, too: the reader must keep what it has)
+                if t not in ("PUB", "REQ") and k % 2:
+                    g = sc.fut()
+                    sc.add(f"recv {g} 1", f"poll {g}", f"drop {g}")
+                elif t == "PUB":
+                    sc.add("drain")
+                sc.add(f"reveal 1 {wg.hx(data[k:])}")
+            if t == "PUB":
+                sc.add("drain", "wire 1")
+                sc.send_once(1, [b"topic-x", b"body"])
+                sc.add("wire 1")
+                want = ("wire", [b"topic-x", b"body"])
+            else:
+                g = sc.fut()
+                sc.add(f"recv {g} 1", f"poll {g}")
+                got = {"REP": first[1:], "REQ": first[1:], "ROUTER": [b"p1"] + first}.get(t, first)
+                want = ("recv", g, got)
+            c = sc.case(f"handover-{t}#{n}", ["socket-handover"])
+            c.expect = want
+            out.append(c)
+            n += 1
+    return out
+
+
+def handover_oracle(case, lines):
+    from vlib import worldgen as wg
+
+    if any(l.startswith(("PANIC", "ABORT", "TIMEOUT")) for l in lines):
+        return "panic/abort"
+    res = list(zip(case.ops, lines[1:]))
+    if case.expect[0] == "wire":
+        w = [l for op, l in res if op == "wire 1"][-1]
+        if w != "wire " + wg.show_wire([case.expect[1]]):
+            return (f"a subscription that arrived (partly) in the same segment as the end of the handshake did not take effect: "
+                    f"a matching publish put {w[:60]} on the subscriber's wire")
+        return None
+    _, g, got = case.expect
+    r = [l for op, l in res if op == f"poll {g}"][-1]
+    if r != "ready ok M[" + wg.show_frames(got) + "]":
+        return (f"the message that arrived (partly) in the same segment as the end of the handshake was not delivered whole as the "
+                f"first message: {r[:100]} (want M[{wg.show_frames(got)[:60]}])")
+    return None
+
+
 def oracle(case, impl_lines):
     """the property itself, on the implementation: chunked == one-shot"""
+    if case.engine == "world":
+        return handover_oracle(case, impl_lines)
     if any(l.startswith(("ABORT", "TIMEOUT")) for l in impl_lines):
         return "implementation aborted"
     # split at the second `newdec`
@@ -156,6 +229,8 @@ def oracle(case, impl_lines):
 
 
 def nontrivial(case, impl_lines):
+    if case.engine == "world":
+        return any(l.startswith(("ready ok M[", "wire ")) and l != "wire ." for l in impl_lines)
     return any(l.startswith("items ") and not l.startswith("items none") for l in impl_lines)
 
 
